@@ -290,6 +290,12 @@ def parse_duration_cs(txt):
     return ['frac', str(val)]
 
 
+FILTER_PLACEHOLDER = 'urn:verif:filter-text-goes-here'
+# XML white space (S ::= (#x20 | #x9 | #xD | #xA)+) between / around the action URIs of a Filter
+WS = {'': '', 'sp': ' ', 'sp2': '  ', 'sp5': '     ', 'tab': '\t', 'lf': '\n', 'crlf': '\r\n', 'lf_indent': '\n        ',
+      'mix': ' \t\r\n ', 'cr_ref': '&#13;&#10;', 'tab_ref': '&#9;'}
+
+
 class Driver:
     def __init__(self, case):
         self.case = case
@@ -524,9 +530,24 @@ class Driver:
             ft = evt.FilterType()
             toks = [self.tok_str(t) for t in q['filter']]
             ft.text = ' '.join(toks) if toks else '  '
+            ws = q.get('ws')
+            if ws and toks:
+                # the white space between the action URIs as another stack may write it (pretty-printed filter);
+                # put into the serialised request as raw bytes, the library's own formatting is not in the way
+                raw_filter = WS[ws['lead']] + toks[0]
+                for sep, tok in zip(ws['seps'], toks[1:]):
+                    raw_filter += WS[sep] + tok
+                raw_filter += WS[ws['trail']]
+                ft.text = FILTER_PLACEHOLDER
             ft.Dialect = DeviceEventingFilterDialectURI.ACTION if q['dialect_ok'] else 'http://verif.example/other-dialect'
         expires = None if q['expires'] is None else self.sec(q['expires'])
         plain = q['schema_ok'] and q['dialect_ok'] and ft is not None and expires is not None
+        raw_filter_bytes = None
+        if ft is not None and ft.text == FILTER_PLACEHOLDER:
+            plain = False
+            if any(ch in tok for tok in toks for ch in '&<'):
+                raise RuntimeError('harness: filter token needs XML escaping')
+            raw_filter_bytes = raw_filter.encode('utf-8')        # contains character references (&#9; &#13;&#10;)
         cs = self.mk_cons(ft if ft is not None else SimpleNamespace(text=None), notify_url, end_url, q.get('cons_ref'), j)
         cons_info = None
         if plain:
@@ -546,6 +567,10 @@ class Driver:
 
             class Manip:
                 def manipulate_string(self_, xml):  # noqa: N805
+                    if raw_filter_bytes is not None:
+                        if xml.count(FILTER_PLACEHOLDER.encode()) != 1:
+                            raise RuntimeError('harness: filter placeholder not found in the serialised Subscribe')
+                        xml = xml.replace(FILTER_PLACEHOLDER.encode(), raw_filter_bytes)
                     if expires is None and (q['schema_ok'] or q.get('bad', 'delivery') == 'delivery'):
                         xml = xml.replace(b'<wse:Expires/>', b'')
                     if not q['schema_ok']:
